@@ -495,12 +495,17 @@ class NAND(TypeReaderCryptoBase):
         self.twl_partitions = []
         self.bonus_partitions = []
 
+        def new_subfile():
+            # every wrapper gets a window of its own: a window keeps a position, and the wrappers are used under
+            # different locks, so sharing one would let threads on different partitions move each other's position
+            return SubsectionIO(self._file, self._start, raw_nand_size)
+
         if self.counter:
             self._base_files.update({
-                'ctr_old': self._crypto.create_ctr_io(Keyslot.CTRNANDOld, self._subfile, self.counter),
-                'ctr_new': self._crypto.create_ctr_io(Keyslot.CTRNANDNew, self._subfile, self.counter),
-                'firm': self._crypto.create_ctr_io(Keyslot.FIRM, self._subfile, self.counter),
-                'agb': self._crypto.create_ctr_io(Keyslot.AGB, self._subfile, self.counter),
+                'ctr_old': self._crypto.create_ctr_io(Keyslot.CTRNANDOld, new_subfile(), self.counter),
+                'ctr_new': self._crypto.create_ctr_io(Keyslot.CTRNANDNew, new_subfile(), self.counter),
+                'firm': self._crypto.create_ctr_io(Keyslot.FIRM, new_subfile(), self.counter),
+                'agb': self._crypto.create_ctr_io(Keyslot.AGB, new_subfile(), self.counter),
             })
 
             with self.open_raw_section(self.ctr_index) as f:
@@ -513,7 +518,7 @@ class NAND(TypeReaderCryptoBase):
                     logger.error('Could not load CTR partitions', exc_info=True)
 
         if self.counter_twl:
-            self._base_files['twl'] = self._crypto.create_ctr_io(Keyslot.TWLNAND, self._subfile, self.counter_twl)
+            self._base_files['twl'] = self._crypto.create_ctr_io(Keyslot.TWLNAND, new_subfile(), self.counter_twl)
 
             with self.open_raw_section(self.twl_index) as f:
                 f.seek(0x1BE)
